@@ -657,6 +657,13 @@ class Engine:
             raise Unsupported(f'attribute store .{tgt.attr}')
         if isinstance(tgt, ast.Subscript):
             base = self.ev(tgt.value, st)
+            if isinstance(base, VRec) and f'{base.name}.__setitem__' in self.reg:
+                key = self.ev(tgt.slice, st)
+                fake = ast.Call(func=ast.Attribute(value=tgt.value, attr='__setitem__', ctx=ast.Load()), args=[tgt.slice], keywords=[])
+                ast.copy_location(fake, tgt)
+                ast.fix_missing_locations(fake)
+                self.menv.apply_contract(f'{base.name}.__setitem__', fake, self, st, recv=base, args=[key, val])
+                return
             if isinstance(base, VList):
                 idx = self.ev(tgt.slice, st)
                 if isinstance(idx, VInt):
@@ -836,6 +843,13 @@ class Engine:
         op = node.op
         if isinstance(op, ast.Add) and isinstance(a, VTuple) and isinstance(b, VTuple):
             return VTuple(a.items + b.items)
+        if isinstance(a, VRec) and isinstance(op, (ast.BitAnd, ast.BitOr)):
+            mname = '__and__' if isinstance(op, ast.BitAnd) else '__or__'
+            if f'{a.name}.{mname}' in self.reg:
+                fake = ast.Call(func=ast.Attribute(value=node.left, attr=mname, ctx=ast.Load()), args=[node.right], keywords=[])
+                ast.copy_location(fake, node)
+                ast.fix_missing_locations(fake)
+                return self.menv.apply_contract(f'{a.name}.{mname}', fake, self, st, recv=a, args=[b])
         x = self.need_int(a, st, node).t
         y = self.need_int(b, st, node).t
         if isinstance(op, ast.Add):
@@ -883,18 +897,26 @@ class Engine:
                 right = self.ev(rnode, st)
                 t = self.compare(op, left, right, st, node)
                 terms.append(t)
-                st.pc.append(t)
-                pushed += 1
+                if z3.is_expr(t):
+                    st.pc.append(t)
+                    pushed += 1
                 left = right
         finally:
             for _ in range(pushed):
                 st.pc.pop()
+        if len(terms) == 1 and not z3.is_expr(terms[0]):
+            return terms[0]          # operator overloaded by contract: the result is a value (e.g. a Boolean TypeBlocks)
         return VBool(z3.And(*terms) if len(terms) > 1 else terms[0])
 
     def compare(self, op, a, b, st, node):
         if isinstance(op, (ast.Is, ast.IsNot)):
             t = self.identical(a, b, st)
             return t if isinstance(op, ast.Is) else z3.Not(t)
+        if isinstance(op, (ast.Eq, ast.NotEq)) and isinstance(a, VRec) and not st.spec and f'{a.name}.__eq__' in self.reg:
+            fake = ast.Call(func=ast.Attribute(value=node.left, attr='__eq__', ctx=ast.Load()), args=[node.comparators[0]], keywords=[])
+            ast.copy_location(fake, node)
+            ast.fix_missing_locations(fake)
+            return self.menv.apply_contract(f'{a.name}.__eq__', fake, self, st, recv=a, args=[b])
         if isinstance(op, (ast.Eq, ast.NotEq)):
             if isinstance(a, VUnknown) or isinstance(b, VUnknown):
                 st.tainted = True
@@ -970,6 +992,8 @@ class Engine:
         if isinstance(base, VRec):
             if a in base.fields:
                 return base.fields[a]
+            if a == '__class__' and base.name != 'arr':
+                return VConst(('class', self.c.get('rec_classes', {}).get(base.name, [base.name])[0]))
             v = self.menv.attr_model(base, a, self, st)
             if v is not None:
                 return v
